@@ -19,6 +19,7 @@ import PyomaVerif.Ops.C04
 import PyomaVerif.Ops.C13
 import PyomaVerif.Ops.C05
 import PyomaVerif.Ops.C07All
+import PyomaVerif.Ops.C06All
 import PyomaVerif.Ops.C09Run
 import PyomaVerif.Ops.Poles
 import PyomaVerif.Ops.C17Table
@@ -37,6 +38,7 @@ def allOps : List (String × (Json → Except String Json)) :=
   ++ PV.Ops.C08.ops
   ++ PV.Ops.MsGather.ops
   ++ PV.Ops.C02State.ops
+  ++ PV.Ops.C06All.ops
 
 def handle (line : String) : String :=
   match Json.parse line with
